@@ -93,12 +93,36 @@ def _atan2(a, b):
         return float(np.arctan2(np.float64(a), np.float64(b)))
 
 
+def _nanred(f):
+    def g(a):
+        import warnings
+        with warnings.catch_warnings():
+            warnings.simplefilter("ignore")
+            with np.errstate(all="ignore"):
+                a = np.asarray(a)
+                if a.size == 0:
+                    return float("nan")
+                return float(f(a))
+    return g
+
+
+def array2(f, n, m):
+    return np.array([[f(a, b) for b in range(m)] for a in range(n)], dtype=np.float32).reshape(n, m)
+
+
+def array_eq(a, b):
+    a, b = np.asarray(a), np.asarray(b)
+    return a.shape == b.shape and bool(np.all((a == b) | (np.isnan(a) & np.isnan(b))))
+
+
 def spec_env():
     specs = importlib.import_module("contracts.specs")
     env = {k: getattr(specs, k) for k in dir(specs) if not k.startswith("__")}
     extra = dict(implies=implies, iff=iff, ite=ite, isnan=_isnan, isfinite=_isfinite, isinf=_isinf, close=close,
                  sqrt=_np1(np.sqrt), atan=_np1(np.arctan), sin=_np1(np.sin), cos=_np1(np.cos), asin=_np1(np.arcsin),
-                 exp=_np1(np.exp), atan2=_atan2, pi=math.pi, floor=math.floor)
+                 exp=_np1(np.exp), atan2=_atan2, pi=math.pi, floor=math.floor, array2=array2, array_eq=array_eq,
+                 nanmean=_nanred(np.nanmean), nansum=_nanred(np.nansum), nanmin=_nanred(np.nanmin), nanmax=_nanred(np.nanmax),
+                 nanstd=_nanred(np.nanstd), nanvar=_nanred(np.nanvar), inf=float("inf"))
     env.update(extra)
     env.update(np=np, math=math)
     for k, v in extra.items():
